@@ -108,6 +108,7 @@ type GlobalInv struct {
 type FuncTypeSpec struct {
 	Pkg, Type string
 	Preserves []string // struct types, or "package <path>": everything owned by that package
+	Requires  []*Clause // over $0, $1, ...: checked at every call through the type, assumed by every function of that type
 }
 
 // PoolInv: invariant of the values held by a package-level sync.Pool (variable x).
@@ -141,7 +142,7 @@ func NewSpecs() *Specs {
 }
 
 var reFuncHdr = regexp.MustCompile(`^func\s+(\(\s*\w*\s*(\*?)\s*(\w+)\s*\)\s*)?([\w$.#]+)\s*$`)
-var reLabel = regexp.MustCompile(`^(\w+)\[([\w.\-]+)\]\s*`)
+var reLabel = regexp.MustCompile(`^(\w+)\[([\w.\-@,]+)\]\s*`)
 
 // LoadSpecFile parses one file. pkgPath is the import path of the package the file
 // belongs to ("" for /verif/spec files, which then must use `package <path>` lines).
@@ -186,7 +187,12 @@ func (sp *Specs) LoadSpecFile(path, pkgPath string) error {
 			if err != nil {
 				return nil, fail("%v", err)
 			}
-			return &Clause{Kind: kind, Name: label, Expr: e, Src: rest, File: path, Line: ln}, nil
+			// ensures[name@C10,C03]: the clause serves only the listed properties
+			name, props := label, []string(nil)
+			if i := strings.Index(label, "@"); i >= 0 {
+				name, props = label[:i], strings.Split(label[i+1:], ",")
+			}
+			return &Clause{Kind: kind, Name: name, Expr: e, Src: rest, Props: props, File: path, Line: ln}, nil
 		}
 		switch word {
 		case "package":
@@ -351,7 +357,11 @@ func (sp *Specs) LoadSpecFile(path, pkgPath string) error {
 			if err != nil {
 				return fail("%v", err)
 			}
-			cur.AtCalls = append(cur.AtCalls, &AtCall{Callee: parts[0], Clause: &Clause{Kind: "atcall", Name: lbl, Expr: e, Src: parts[2], File: path, Line: ln}})
+			var aprops []string
+			if i := strings.Index(lbl, "@"); i >= 0 {
+				lbl, aprops = lbl[:i], strings.Split(lbl[i+1:], ",")
+			}
+			cur.AtCalls = append(cur.AtCalls, &AtCall{Callee: parts[0], Clause: &Clause{Kind: "atcall", Name: lbl, Expr: e, Src: parts[2], Props: aprops, File: path, Line: ln}})
 		case "pure":
 			cur.Pure = true
 		case "overflow":
@@ -414,8 +424,24 @@ func (sp *Specs) LoadSpecFile(path, pkgPath string) error {
 		case "functype":
 			// functype <Type> preserves <StructType> ...
 			parts := strings.Fields(rest)
+			if len(parts) >= 3 && parts[1] == "requires" {
+				src := strings.TrimSpace(strings.SplitN(rest, "requires", 2)[1])
+				e, err := ParseExpr(src)
+				if err != nil {
+					return fail("%v", err)
+				}
+				cl := &Clause{Kind: "requires", Expr: e, Src: src, File: path, Line: ln}
+				for _, ft := range sp.FuncTypes {
+					if ft.Pkg == pkgPath && ft.Type == parts[0] {
+						ft.Requires = append(ft.Requires, cl)
+						return nil
+					}
+				}
+				sp.FuncTypes = append(sp.FuncTypes, &FuncTypeSpec{Pkg: pkgPath, Type: parts[0], Requires: []*Clause{cl}})
+				return nil
+			}
 			if len(parts) < 3 || parts[1] != "preserves" {
-				return fail("functype <Type> preserves <StructType>...")
+				return fail("functype <Type> preserves <StructType>... | functype <Type> requires <expr over $0, $1, ...>")
 			}
 			sp.FuncTypes = append(sp.FuncTypes, &FuncTypeSpec{Pkg: pkgPath, Type: parts[0], Preserves: parts[2:]})
 		case "pool":
